@@ -110,6 +110,7 @@ type Op struct {
 	Conn int
 	Kind string
 	SQL  string
+	GID  int64 // goroutine performing the operation (filled in when Server.WantGID is set)
 }
 
 // Sched is told about every statement-level entry point (server lock not held). Lock waits are real waits on the
@@ -139,6 +140,9 @@ type Server struct {
 	LockWaitLimit int // free-running mode: give up a lock wait after this many wake-ups (0 = wait forever)
 	// SequentialWaits: the harness runs one client thread at a time, so the owner of a contended lock can never
 	// release it while the requester waits: the wait ends as innodb_lock_wait_timeout would end it (error 1205).
+	// WantGID makes every Op carry the id of the goroutine that performs it, so that a fault plan can be restricted to the
+	// case's own thread (background work of the client - asynchronous undo-log deletion - must not consume fault positions)
+	WantGID         bool
 	SequentialWaits bool
 	LockTimeouts    int // number of such timeouts (a leaked transaction was holding a lock)
 }
